@@ -262,13 +262,35 @@ def build_cmp():
     return True, out + out2
 
 
+BIN = {"cmp": None, "harness": None}
+
+
+def use_private_binaries(tmpdir):
+    for key, name in (("cmp", "cmp"), ("harness", "sctp.test")):
+        src = os.path.join(BUILD, name)
+        dst = os.path.join(tmpdir, name)
+        try:
+            shutil.copy2(src, dst)
+            BIN[key] = dst
+        except OSError:
+            BIN[key] = None
+
+
+def cmp_bin():
+    return BIN["cmp"] or os.path.join(BUILD, "cmp")
+
+
+def harness_bin():
+    return BIN["harness"] or os.path.join(BUILD, "sctp.test")
+
+
 def run_cmp(component, trace, timeout=1800, shards=16):
     """Replay a trace on the extracted model, cases sharded over `shards` processes."""
     t0 = time.time()
     procs = []
     for k in range(shards):
         e = dict(os.environ, VERIF_SHARD="%d/%d" % (k, shards))
-        procs.append(subprocess.Popen(["bash", "-c", "ulimit -s unlimited; exec %s %s %s" % (os.path.join(BUILD, "cmp"), component, trace)],
+        procs.append(subprocess.Popen(["bash", "-c", "ulimit -s unlimited; exec %s %s %s" % (cmp_bin(), component, trace)],
                                       env=e, stdout=subprocess.PIPE, stderr=subprocess.STDOUT, text=True, errors="replace"))
     mism, info, raw, rc, notes = [], {}, "", 0, []
     for k, p in enumerate(procs):
@@ -330,7 +352,7 @@ def build_harness():
 def run_harness(test, env=None, timeout=1800, extra=None):
     e = dict(os.environ)
     e.update({k: str(v) for k, v in (env or {}).items()})
-    cmd = [os.path.join(BUILD, "sctp.test"), "-test.run", "^%s$" % test, "-test.count=1", "-test.timeout", "%ds" % timeout]
+    cmd = [harness_bin(), "-test.run", "^%s$" % test, "-test.count=1", "-test.timeout", "%ds" % timeout]
     if extra:
         cmd += extra
     rc, out, dt = sh(cmd, cwd=REPO, env=e, timeout=timeout + 30)
